@@ -219,3 +219,92 @@ Definition v_boxcar (x : list Q) (N : Z) (out : result (list Q)) : Z :=
                             && forallb (fun k => close_lin_b (nth k o 0) (nth k m 0) (eps9 * boxcar_scale x N k))
                                        (seq 0 (length m)) in
                    verdict c c).
+
+(* ================================================================ float32-precision variants *)
+(* Same verdict functions with the rounding constant as a parameter (SpecTol.v); evaluated at
+   eps_f4 for the calls in which the routine itself computes in float32 because the caller passed
+   float32 arrays.  No exactness exemption for ties (float32 arithmetic on small integers is not
+   exact in general): every clip decision within the tolerance of its threshold is skipped. *)
+From EsVerif.C18 Require Import SpecTol.
+
+Definition v_wmom_e (eps : Q) (arr wts : nd) (im : imean) (ce sd : bool) (out : result (nd * nd * option nd)) : Z :=
+  match out with
+  | Ok (om, oe, os) =>
+      match wmom arr wts im ce sd with
+      | Ok _ => let c := wmom_check_e eps arr wts im ce sd om oe os in verdict c c
+      | Err _ => 1%Z
+      end
+  | Err e' => match wmom arr wts im ce sd with
+              | Ok _ => 3%Z
+              | Err e => verdict (err_eqb e e') true
+              end
+  end.
+
+Definition near_e (eps : Q) (nsig : Q) (st : cstat) (A : Q) : pt -> bool :=
+  let T := Qred (sq nsig * c_var st) in
+  let m := c_mean st in
+  let c := eps * ((1 + nsig) * A) in
+  fun p => let a := Qabs (p_x p - m) in
+           let tau := eps * (2 * a) + c in
+           (Qle_bool a tau || Qle_bool (sq (a - tau)) T) && Qle_bool T (sq (a + tau)).
+
+Fixpoint sc_border_e (eps : Q) (fuel : nat) (weighted : bool) (nsig : Q) (cur : list pt) (st : cstat) : bool :=
+  match fuel with
+  | O => false
+  | S f =>
+      if (if Nat.leb (length cur) 1 then false else existsb (near_e eps nsig st (maxabs cur)) cur) then true else
+      let kept := filter (within nsig st) cur in
+      match kept with
+      | [] => false
+      | _ => if Nat.eqb (length kept) (length cur) then false
+             else sc_border_e eps f weighted nsig kept (sc_stats weighted kept)
+      end
+  end.
+
+Definition v_sigma_clip_e (eps : Q) (x : list Q) (w : option (list Q)) (niter : Z) (nsig : Q)
+           (out : result (Q * Q * Q * list Z)) : Z :=
+  let wf := Nat.eqb (length (sc_weights x w)) (length x) && negb (Nat.eqb (length x) 0) && Qle_bool 0 nsig in
+  let all := index_from 0%Z x (sc_weights x w) in
+  let wtd := sc_weighted w in
+  if wf && sc_border_e eps (Z.to_nat niter) wtd nsig all (sc_stats wtd all) then skip else
+  match out with
+  | Ok (m, s, e, idx) =>
+      if wf then
+        let c := sigma_clip_check_e eps wtd nsig (Z.to_nat niter) all m s e idx in
+        if c then (if kf_everything_clipped wtd nsig (Z.to_nat niter) all then 12%Z else 0%Z) else 3%Z
+      else 1%Z
+  | Err e' =>
+      match sigma_clip (V1 x) (opt_v1 w) niter nsig with
+      | Ok _ => 3%Z
+      | Err e => verdict (err_eqb e e') true
+      end
+  end.
+
+Definition v_interplin_e (eps : Q) (v x u : list Q) (out : result (list Q)) : Z :=
+  vres (interplin v x u) out
+       (fun _ o => if incr_b x && Nat.eqb (length v) (length x)
+                   then let c := forallb2 (fun ui yi => interp_check_e eps v x ui yi) u o in verdict c c
+                   else 0%Z).
+
+Definition v_cov2cor_e (eps : Q) (cov : list (list Q)) (out : result (list (list Q))) : Z :=
+  vres (cov2cor cov) out
+       (fun m o =>
+          let n := length cov in
+          let agree := mat_shape_ok n o
+                       && forallb (fun ij => let '(num, den2) := nth (snd ij) (nth (fst ij) m []) (0, 0) in
+                                             cor_close_b_e eps (mget o (fst ij) (snd ij)) num den2) (idx2 n) in
+          verdict agree (mat_shape_ok n o && cov2cor_check_e eps cov o)).
+
+Definition v_cor2cov_e (eps : Q) (cor : list (list Q)) (d : list Q) (out : result (list (list Q))) : Z :=
+  vres (cor2cov cor d) out
+       (fun m o => let n := length cor in
+                   let c := mat_shape_ok n o && mat_close_b_e eps n o m in verdict c c).
+
+Definition v_roundtrip_e (eps : Q) (cov : list (list Q)) (out : result (list (list Q))) : Z :=
+  match cov2cor cov, out with
+  | Ok _, Ok o => let n := length cov in
+                  let c := mat_shape_ok n o && mat_close_b_e eps n o cov in verdict c c
+  | Ok _, Err _ => 3%Z
+  | Err e, Err e' => verdict (err_eqb e e') true
+  | Err _, Ok _ => 1%Z
+  end.
